@@ -16,7 +16,7 @@
     (IsoProofs.dynamics_collapse_rxn, used again by C16); they are stated here over Z. *)
 From Coq Require Import List ZArith NArith Bool Arith Permutation.
 From MxlBase Require Import ListX.
-From Label Require Import LModel Iso Linear GenLabelFacts ExpectedFacts Algebra IsoProofs IsoInitProofs IsoPropsZ IsoWhole.
+From Label Require Import LModel Iso IsoSession Linear GenLabelFacts ExpectedFacts Algebra IsoProofs IsoInitProofs IsoPropsZ IsoWhole IsoSessionProofs.
 Import ListNotations.
 
 Theorem C05_facts_pinned :
@@ -340,3 +340,91 @@ Example C05_nonvacuous :
   total (labels_per nv_lv (prods_of (r_stoich nv_rxn))) <= length [1%Z; 0%Z].
 Proof. exact dynamics_nonvacuous. Qed.
 Print Assumptions C05_nonvacuous.
+
+(** ---- the LabelMapper OBJECT over its life (IsoSession.v): any number of build_model calls on one mapper ----
+
+    `for every base model, assignment of label counts and atom-transition map, the labelled model has ...` is a statement
+    about every model build_model returns, the second and the tenth as much as the first.  [session] threads the
+    mapper's own `label_maps` dict through the reaction loop of every call; how the loop consults the dict is the
+    regenerated fact [gen_build_maps] (MapsRead = the tree: `self.label_maps.get(rxn_name)`). *)
+Theorem C05_build_maps_pinned : gen_build_maps = MapsRead.
+Proof. vm_compute. reflexivity. Qed.
+Print Assumptions C05_build_maps_pinned.
+
+(** FULL, every history: on the tree's form each call returns exactly [build_iso] of the mapper's fields and its own
+    `initial_labels` -- whatever was built before -- and the mapper's maps are left as they were.  Hence every theorem
+    above about [build_iso] / [create_iso_rxns] holds for EVERY call of every history (the k-th call below). *)
+Theorem C05_every_build_is_a_fresh_build :
+  forall (rk : repl_kind) (ik : init_name_kind) (lv : label_vars) (lmaps : label_maps) (bm : bmodel) (inits : list init_labels),
+    session gen_build_maps (ext_bit_of gen_label_facts) rk ik lv lmaps bm inits
+    = (map (fun i => build_iso (ext_bit_of gen_label_facts) rk ik lv lmaps i bm) inits, lmaps).
+Proof. exact (session_read true). Qed.
+Print Assumptions C05_every_build_is_a_fresh_build.
+
+Theorem C05_kth_build :
+  forall (rk : repl_kind) (ik : init_name_kind) (lv : label_vars) (lmaps : label_maps) (bm : bmodel) (inits : list init_labels)
+         (k : nat) (i : init_labels),
+    nth_error inits k = Some i ->
+    nth_error (fst (session gen_build_maps (ext_bit_of gen_label_facts) rk ik lv lmaps bm inits)) k
+    = Some (build_iso (ext_bit_of gen_label_facts) rk ik lv lmaps i bm).
+Proof. exact (session_read_nth true). Qed.
+Print Assumptions C05_kth_build.
+
+(** regression shape MapsPopped (seeded change C05-9: `open_maps = self.label_maps`, `open_maps.pop(rxn_name, None)`).
+    PARTIAL: only the FIRST call of a mapper is the fresh build ... *)
+Theorem C05_popped_maps_first_build_partial :
+  forall (ext_bit : bool) (rk : repl_kind) (ik : init_name_kind) (lv : label_vars) (lmaps : label_maps) (init : init_labels) (bm : bmodel),
+    NoDup (map r_name (b_rxns bm)) ->
+    fst (build_iso_st MapsPopped ext_bit rk ik lv lmaps init bm) = build_iso ext_bit rk ik lv lmaps init bm.
+Proof. exact popped_first_build. Qed.
+Print Assumptions C05_popped_maps_first_build_partial.
+
+(** ... it leaves exactly the maps that name no reaction of the base model ... *)
+Theorem C05_popped_maps_leftover :
+  forall (ext_bit : bool) (rk : repl_kind) (ik : init_name_kind) (lv : label_vars) (lmaps : label_maps) (init : init_labels) (bm : bmodel)
+         (m : lmodel Z),
+    fst (build_iso_st MapsPopped ext_bit rk ik lv lmaps init bm) = Ok m ->
+    snd (build_iso_st MapsPopped ext_bit rk ik lv lmaps init bm)
+    = filter (fun kv => negb (existsb (N.eqb (fst kv)) (map r_name (b_rxns bm)))) lmaps.
+Proof. exact popped_leftover. Qed.
+Print Assumptions C05_popped_maps_leftover.
+
+(** ... so when every map names a reaction, the second call is the build of a mapper WITHOUT maps, which contains not one
+    isotopomer reaction (all base models, label counts, maps, initial labels) *)
+Theorem C05_popped_maps_second_build_unmapped :
+  forall (ext_bit : bool) (rk : repl_kind) (ik : init_name_kind) (lv : label_vars) (lmaps : label_maps) (bm : bmodel)
+         (i1 i2 : init_labels) (m1 : lmodel Z),
+    NoDup (map r_name (b_rxns bm)) ->
+    (forall k, In k (map fst lmaps) -> In k (map r_name (b_rxns bm))) ->
+    build_iso ext_bit rk ik lv lmaps i1 bm = Ok m1 ->
+    session MapsPopped ext_bit rk ik lv lmaps bm [i1; i2] = ([Ok m1; build_iso ext_bit rk ik lv [] i2 bm], [])
+    /\ forall m2, build_iso ext_bit rk ik lv [] i2 bm = Ok m2 -> forallb (fun rx => negb (is_iso_rxn rx)) (lm_rxns m2) = true.
+Proof. exact popped_second_build_unmapped. Qed.
+Print Assumptions C05_popped_maps_second_build_unmapped.
+
+(** witness (in -> A(1) -> B(1) -> out, all three reactions mapped; reference build, then the tracer on A): under the popping
+    form the second call has the reactions v40, v41, v42 on base names and no isotopomer reaction, the mapper's maps are
+    gone; the isotopomers of A then do not move (0) where the fresh build gives the base derivative -2 *)
+Theorem C05_popped_maps_refuted :
+  exists m1 m2 m2' : lmodel Z,
+    session MapsPopped true ReplPositional InitIsoName sw_lv sw_maps sw_base [[]; sw_tracer] = ([Ok m1; Ok m2], []) /\
+    build_iso true ReplPositional InitIsoName sw_lv sw_maps [] sw_base = Ok m1 /\
+    build_iso true ReplPositional InitIsoName sw_lv sw_maps sw_tracer sw_base = Ok m2' /\
+    length (filter is_iso_rxn (lm_rxns m1)) = 5 /\ length (filter is_iso_rxn (lm_rxns m2')) = 5 /\
+    filter is_iso_rxn (lm_rxns m2) = [] /\
+    map lr_name (lm_rxns m2) = [LPlain 40%N; LPlain 41%N; LPlain 42%N] /\
+    lm_vars m2 = lm_vars m2' /\
+    sumZ (map (fun bits => derivZ sw_env (lm_rxns m2') (iso_name 1%N bits)) (all_patterns (nlab sw_lv 1%N))) = (-2)%Z /\
+    sumZ (map (fun bits => derivZ sw_env (lm_rxns m2) (iso_name 1%N bits)) (all_patterns (nlab sw_lv 1%N))) = 0%Z.
+Proof. exact popped_maps_refuted. Qed.
+Print Assumptions C05_popped_maps_refuted.
+
+(** non-vacuity of C05_every_build_is_a_fresh_build: the same history on the tree's form -- two complete expansions (five
+    isotopomer reactions each), the amount of A on A__0 in the reference build and on A__1 in the tracer build, maps kept *)
+Example C05_session_nonvacuous :
+  exists m1 m2 : lmodel Z,
+    session MapsRead true ReplPositional InitIsoName sw_lv sw_maps sw_base [[]; sw_tracer] = ([Ok m1; Ok m2], sw_maps) /\
+    length (filter is_iso_rxn (lm_rxns m1)) = 5 /\ length (filter is_iso_rxn (lm_rxns m2)) = 5 /\
+    getL (LIso 1%N [true]) (lm_vars m2) = Some 3%Z /\ getL (LIso 1%N [false]) (lm_vars m1) = Some 3%Z.
+Proof. exact session_nonvacuous. Qed.
+Print Assumptions C05_session_nonvacuous.
